@@ -2,6 +2,7 @@ package main
 
 import (
 	"fmt"
+	"go/ast"
 	"go/constant"
 	"go/token"
 	"go/types"
@@ -25,6 +26,11 @@ func (sc *symCtx) sym(v ssa.Value, depth int) string {
 	if depth > 25 {
 		return "…"
 	}
+	if substEnv != nil {
+		if sv, ok := substEnv[v]; ok && sv != v {
+			return sc.sym(sv, depth+1)
+		}
+	}
 	switch x := v.(type) {
 	case *ssa.Parameter:
 		for i, p := range sc.fn.Params {
@@ -35,8 +41,45 @@ func (sc *symCtx) sym(v ssa.Value, depth int) string {
 				return "ctx"
 			}
 		}
+		// a parameter of the constructor the closure (or the helper we are in) was created for
+		if pf := x.Parent(); pf != nil && pf.Parent() == nil && pf != sc.fn {
+			off := 0
+			if pf.Signature.Recv() != nil {
+				off = 1
+			}
+			for i, pp := range pf.Params {
+				if pp == x && i >= off {
+					return fmt.Sprintf("$%d", i-off)
+				}
+			}
+		}
 		return x.Name()
 	case *ssa.FreeVar:
+		// a captured constructor parameter is named after its position among the constructor's
+		// arguments ($0 = first argument after the receiver), whatever the capture order and through
+		// whatever helper it reached the closure
+		if b := freeVarBinding(x); b != nil {
+			if al, ok := b.(*ssa.Alloc); ok {
+				if sts := storesTo(al); len(sts) == 1 {
+					switch q := cv(sts[0].Val).(type) {
+					case *ssa.Parameter:
+						if pf := q.Parent(); pf != nil && pf.Parent() == nil {
+							off := 0
+							if pf.Signature.Recv() != nil {
+								off = 1
+							}
+							for i, pp := range pf.Params {
+								if pp == q && i >= off {
+									return fmt.Sprintf("&$%d", i-off)
+								}
+							}
+						}
+					case *ssa.Function, *ssa.MakeClosure, *ssa.Const:
+						return "&" + sc.sym(q, depth+1)
+					}
+				}
+			}
+		}
 		for i, f := range sc.fn.FreeVars {
 			if f == x {
 				return fmt.Sprintf("&$%d", i)
@@ -162,6 +205,10 @@ func (sc *symCtx) sym(v ssa.Value, depth int) string {
 		}
 		if ci.dynamic {
 			name = "call " + sc.sym(x.Call.Value, depth+1)
+			// a function value known on this path (a method expression handed to a helper)
+			if f, ok := cv(x.Call.Value).(*ssa.Function); ok {
+				name = strings.TrimSuffix(strings.ReplaceAll(f.String(), "github.com/Oudwins/", ""), "$thunk")
+			}
 		}
 		if ci.invoke != nil {
 			name = sc.sym(x.Call.Value, depth+1) + "." + ci.invoke.Name()
@@ -250,6 +297,34 @@ func balancedTop(a, op string) bool {
 }
 
 func (P *Prog) predicateShape(fn *ssa.Function) predShape {
+	if m, ok := P.shapeMemo[fn]; ok {
+		return m
+	}
+	sh := P.predicateShape1(fn, nil)
+	if P.shapeMemo == nil {
+		P.shapeMemo = map[*ssa.Function]predShape{}
+	}
+	P.shapeMemo[fn] = sh
+	return sh
+}
+
+// formulaHelper: an unexported module function (not a method of an exported
+// API type's contract) whose body is entered when a formula is rendered, so
+// that moving part of a predicate into a helper leaves the formula unchanged.
+// Exported functions and methods keep their name in the formula: they are
+// the vocabulary the frozen tables are written in.
+func formulaHelper(f *ssa.Function) bool {
+	if f == nil || f.Blocks == nil || !inModule(funcPkgPath(f)) || f.Parent() != nil {
+		return false
+	}
+	return !ast.IsExported(f.Name())
+}
+
+// predicateShape1 enumerates the decision paths of fn with the path engine
+// (unexported helpers entered, constant and repeated conditions pruned): each
+// path is the conjunction of its branch conditions, rendered symbolically, and
+// the rendered return value.
+func (P *Prog) predicateShape1(fn *ssa.Function, env map[ssa.Value]ssa.Value) predShape {
 	var sh predShape
 	loops := naturalLoops(fn)
 	if len(loops) > 1 {
@@ -260,94 +335,84 @@ func (P *Prog) predicateShape(fn *ssa.Function) predShape {
 		sh.loop = &loops[0]
 	}
 	sc := &symCtx{fn: fn, phis: map[*ssa.Phi]ssa.Value{}}
-	var walk func(b, prev *ssa.BasicBlock, conds []string, depth int, entered bool)
-	walk = func(b, prev *ssa.BasicBlock, conds []string, depth int, entered bool) {
-		if depth > 60 {
-			sh.problems = append(sh.problems, "path too long")
-			return
+	spec := &pathSpec{name: "formula", inlineAll: true, symbolicLoopPhis: true}
+	spec.keep = func(f *ssa.Function) bool {
+		if f.Parent() != nil {
+			return false // a closure handed to a helper, known on this path
 		}
-		inBody := sh.loop != nil && sh.loop.body[b]
-		if sh.loop != nil && b == sh.loop.header {
-			if entered {
-				return // back edge: next iteration
-			}
-			entered = true
-		}
-		// resolve phis for this path
-		saved := map[*ssa.Phi]ssa.Value{}
-		for _, in := range b.Instrs {
-			ph, ok := in.(*ssa.Phi)
-			if !ok {
-				break
-			}
-			if sh.loop != nil && b == sh.loop.header {
-				continue // loop-carried: symbolic
-			}
-			for i, p := range b.Preds {
-				if p == prev {
-					saved[ph] = sc.phis[ph]
-					sc.phis[ph] = ph.Edges[i]
-				}
-			}
-		}
-		defer func() {
-			for ph, old := range saved {
-				if old == nil {
-					delete(sc.phis, ph)
-				} else {
-					sc.phis[ph] = old
-				}
-			}
-		}()
-		last := b.Instrs[len(b.Instrs)-1]
-		switch t := last.(type) {
-		case *ssa.Return:
-			ret := "?"
-			if len(t.Results) == 1 {
-				ret = sc.sym(t.Results[0], 0)
-			} else if len(t.Results) > 1 {
-				var parts []string
-				for _, rv := range t.Results {
-					parts = append(parts, sc.sym(rv, 0))
-				}
-				ret = "(" + strings.Join(parts, ", ") + ")"
-			}
-			var cp []string
-			exhausted := false
-			for _, a := range conds {
-				if a == "loop-exhausted" {
-					exhausted = true
-					continue
-				}
-				cp = append(cp, a)
-			}
-			_ = inBody
-			sh.paths = append(sh.paths, predPath{conds: cp, ret: ret, inLoop: entered && !exhausted})
-		case *ssa.If:
-			c := sc.sym(t.Cond, 0)
-			// loop header condition is the iteration domain, not a path condition
-			if sh.loop != nil && b == sh.loop.header {
-				sh.domain = P.loopDomain(sc, sh.loop, t)
-				for k, s := range b.Succs {
-					if sh.loop.body[s] && k == 0 {
-						walk(s, b, conds, depth+1, entered)
-					} else {
-						walk(s, b, append(append([]string{}, conds...), "loop-exhausted"), depth+1, entered)
-					}
-				}
-				return
-			}
-			walk(b.Succs[0], b, append(append([]string{}, conds...), c), depth+1, entered)
-			walk(b.Succs[1], b, append(append([]string{}, conds...), negAtom(c)), depth+1, entered)
-		case *ssa.Jump:
-			walk(b.Succs[0], b, conds, depth+1, entered)
-		case *ssa.Panic:
-			sh.problems = append(sh.problems, "predicate can panic explicitly")
-		default:
-			sh.problems = append(sh.problems, fmt.Sprintf("unexpected terminator %T", last))
-		}
+		return !formulaHelper(f)
 	}
-	walk(fn.Blocks[0], nil, nil, 0, false)
+	spec.events = func(in ssa.Instruction) []pathItem { return nil }
+	spec.cond = func(iff *ssa.If) (string, string, string) {
+		b := iff.Block()
+		if sh.loop != nil && b == sh.loop.header {
+			sh.domain = P.loopDomain(sc, sh.loop, iff)
+			return "", "", "" // the engine labels it LOOP iter/done
+		}
+		if b.Parent() != fn {
+			for _, l := range naturalLoops(b.Parent()) {
+				if l.header == b {
+					return "", "", ""
+				}
+			}
+		}
+		c := sc.sym(iff.Cond, 0)
+		return "ATOM", c, negAtom(c)
+	}
+	spec.onReturn = func(rt *ssa.Return) string {
+		res, ok := retVals(rt)
+		if !ok {
+			res = rt.Results
+		}
+		switch len(res) {
+		case 0:
+			return "?"
+		case 1:
+			return sc.sym(res[0], 0)
+		}
+		var parts []string
+		for _, rv := range res {
+			parts = append(parts, sc.sym(rv, 0))
+		}
+		return "(" + strings.Join(parts, ", ") + ")"
+	}
+	res := P.enumPathsSpec(fn, env, spec)
+	if res.capHit {
+		sh.problems = append(sh.problems, "path too long")
+	}
+	for _, p := range res.paths {
+		switch {
+		case p.end == "LOOP-BACK":
+			continue // next iteration
+		case p.end == "PANIC":
+			sh.problems = append(sh.problems, "predicate can panic explicitly")
+			continue
+		case !strings.HasPrefix(p.end, "RETURN"):
+			sh.problems = append(sh.problems, "unexpected terminator "+p.end)
+			continue
+		}
+		pp := predPath{ret: strings.TrimPrefix(strings.TrimPrefix(p.end, "RETURN"), " ")}
+		entered, exhausted := false, false
+		for _, it := range p.items {
+			switch it.kind {
+			case "ATOM":
+				pp.conds = append(pp.conds, it.val)
+			case "LOOP":
+				if sh.loop != nil && it.in.Block() == sh.loop.header {
+					if it.val == "iter" {
+						entered = true
+					} else {
+						exhausted = true
+					}
+				} else {
+					sh.problems = append(sh.problems, "a helper of the predicate contains a loop")
+				}
+			}
+		}
+		pp.inLoop = entered && !exhausted
+		sh.paths = append(sh.paths, pp)
+	}
+	sh.problems = uniqSorted(sh.problems)
 	return sh
 }
 
@@ -789,13 +854,25 @@ func checkC20(P *Prog, r *Result) {
 		}
 		// the predicate closure created in the same function
 		var cl *ssa.Function
-		for _, a := range l.fn.AnonFuncs {
-			if types.Identical(a.Signature, boolSig) {
-				if cl != nil {
-					cl = nil
-					break
+		var env map[ssa.Value]ssa.Value
+		pick := func(fs []*ssa.Function) (*ssa.Function, int) {
+			var one *ssa.Function
+			n := 0
+			for _, a := range fs {
+				if types.Identical(a.Signature, boolSig) {
+					n++
+					one = a
 				}
-				cl = a
+			}
+			return one, n
+		}
+		if one, n := pick(l.fn.AnonFuncs); n == 1 {
+			cl = one
+		} else if n == 0 && l.tmplFn != nil {
+			// the literal and its predicate live in a constructor helper: pair them there, under the
+			// binding of the helper's parameters to this constructor's arguments
+			if one, n := pick(l.tmplFn.AnonFuncs); n == 1 {
+				cl, env = one, l.tmplEnv
 			}
 		}
 		c := fmt.Sprintf("%s#%s", fname(l.fn), l.code)
@@ -813,7 +890,7 @@ func checkC20(P *Prog, r *Result) {
 			r.undecided("C20/predicate", c, l.pos, fmt.Sprintf("no documented predicate frozen for issue code %q on subject class %q", l.code, class))
 			continue
 		}
-		got, probs := P.canonicalPredicate(cl)
+		got, probs := P.canonicalPredicateEnv(cl, env)
 		if len(probs) > 0 {
 			r.undecided("C20/predicate", c, P.pos(cl.Pos()), "predicate closure has an unrecognised shape: "+strings.Join(probs, "; "), "formula so far: "+got)
 			continue
@@ -875,16 +952,23 @@ func (P *Prog) predicateClass(l testLit, cl *ssa.Function) string {
 	pk := funcPkgPath(l.fn)
 	usesReflectElem := false
 	usesTime := false
-	eachInstr(cl, func(_ *ssa.BasicBlock, _ int, in ssa.Instruction) {
-		if ci := callOf(in); ci != nil && ci.static != nil {
-			if isPkgFunc(ci.static, "reflect") && ci.static.Name() == "Elem" {
-				usesReflectElem = true
+	var scan func(f *ssa.Function, d int)
+	scan = func(f *ssa.Function, d int) {
+		eachInstr(f, func(_ *ssa.BasicBlock, _ int, in ssa.Instruction) {
+			if ci := callOf(in); ci != nil && ci.static != nil {
+				if isPkgFunc(ci.static, "reflect") && ci.static.Name() == "Elem" {
+					usesReflectElem = true
+				}
+				if isPkgFunc(ci.static, "time") {
+					usesTime = true
+				}
+				if d < 2 && formulaHelper(ci.static) {
+					scan(ci.static, d+1)
+				}
 			}
-			if isPkgFunc(ci.static, "time") {
-				usesTime = true
-			}
-		}
-	})
+		})
+	}
+	scan(cl, 0)
 	switch P.roles.kindOfFunc(l.fn) {
 	case "TimeSchema":
 		return "time"
@@ -906,7 +990,18 @@ func (P *Prog) predicateClass(l testLit, cl *ssa.Function) string {
 
 // canonicalPredicate renders the closure's predicate.
 func (P *Prog) canonicalPredicate(cl *ssa.Function) (string, []string) {
-	sh := P.predicateShape(cl)
+	return P.canonicalPredicateEnv(cl, nil)
+}
+
+// canonicalPredicateEnv: the predicate of a closure that lives in a constructor helper, with the
+// helper's parameters bound to the arguments of the constructor's call.
+func (P *Prog) canonicalPredicateEnv(cl *ssa.Function, env map[ssa.Value]ssa.Value) (string, []string) {
+	var sh predShape
+	if len(env) == 0 {
+		sh = P.predicateShape(cl)
+	} else {
+		sh = P.predicateShape1(cl, env)
+	}
 	if len(sh.problems) > 0 {
 		return "", sh.problems
 	}
